@@ -73,6 +73,14 @@ func genC19(r *Rng, tier string) *c19W {
 	if r.Chance(5) {
 		// more rows than any batch the broadcaster may form
 		n = 260 + r.Intn(700)
+		if r.Chance(60) {
+			// one goroutine of the step (an aggregation, the broadcaster, a
+			// feeding stage) falls far behind the others: computing costs nothing
+			// in the simulator, so a slow aggregation has to be scheduled slow
+			w.Run.Policy = int(simrt.PolStarve)
+			w.Run.StarveSite = ""
+			w.Run.StarveIdx = r.Intn(16)
+		}
 	}
 	g := &model.GraphData{}
 	numericOnly := r.Chance(40)
